@@ -188,7 +188,7 @@ def scenarios(ctx):
                 for action in ("none", "close", "eof", "readerr", "writefail", "drainfail", "garbage-eof", "connect"):
                     points = [("ticks", t) for t in range(0, 14)] + [("at", a) for a in (0.0005, 0.003, 0.015, 0.4, 0.9, 2.0, 5.0)]
                     for kindp, v in points:
-                        for cbm, stm in (("ok", "ok"), ("raise", "ok"), ("slow", "slow"), ("ok", "raise"), (["ok", "close"], "ok"), ("close", "raise"), ("ok", "close-on-disconnect"), ("ok", "slow-connected")):
+                        for cbm, stm in (("ok", "ok"), ("raise", "ok"), ("slow", "slow"), ("ok", "raise"), (["ok", "close"], "ok"), ("close", "raise"), ("ok", "close-on-disconnect"), ("ok", "slow-connected"), ("ok", "connect-on-disconnect"), (["ok", "cancelled", "ok"], "ok")):
                             out.append(dict(kind=kind, shape=shape, connect=cs, action=action, point=[kindp, v], cb=cbm, status=stm,
                                             drain=rnd.choice([None, [1], [0, 2], [3]])))
     rnd.shuffle(out)
@@ -383,7 +383,7 @@ def suite_framing(ctx, n=None):
         packets = c12_stream(kind, rnd, rnd.choice([1, 3, 8]))
         stream = b"".join(packets)
         reads = c12_segment(rnd, stream, rnd.choice(["one", "all", "rand", "marker"]))
-        cbm = rnd.choice(["ok", ["ok", "raise"], "slow", ["raise", "slow", "ok"]])
+        cbm = rnd.choice(["ok", ["ok", "raise"], "slow", ["raise", "slow", "ok"], ["ok", "cancelled", "ok", "ok"]])
         sim = c12_session(kind, packets, reads, cbm)
         got = ",".join(harness.hx(b) for _, b in sim.read_log)
         cmd = {"ebyte": "reader.feed13", "yd": "reader.lines", "actisense": "reader.lines"}.get(kind)
@@ -457,6 +457,21 @@ def monitor(sim, sc):
     if close_call is None or True:
         # state at the end of the scripted part (before the harness's final close): recover unless closed by the scenario
         pass
+    # C13: never-zero delay: between a DISCONNECTED report and the next connection attempt there is a wait
+    for i, e in enumerate(ev):
+        if e == "status DISCONNECTED" and sc["status"] != "connect-on-disconnect" and sc["action"] != "connect":     # (a connect() the application itself issues is not a retry)
+            j = next((k for k in range(i + 1, len(ev)) if ev[k].startswith("implStart")), None)
+            if j is not None and not any(x.startswith("sleep") and int(x.split()[1]) > 0 for x in ev[i:j]):
+                out.append(("C13", "zero-delay", "a connection attempt follows a DISCONNECTED report without any wait (a gateway that accepts and drops is reconnected to in a tight loop)"))
+                break
+    # C13: the receive path gives other tasks a turn: frames that are already buffered are not all processed in one event-loop step
+    its = getattr(sim, "recv_loop_iters", [])
+    run = 1
+    for a, b in zip(its, its[1:]):
+        run = run + 1 if a == b else 1
+        if run >= 3:
+            out.append(("C13", "no-yield", "three or more frames were received and processed within one event-loop step: buffered input is processed without giving other tasks a turn"))
+            break
     st = sim.status_log
     for a, b in zip(st, st[1:]):
         if a == b:
